@@ -373,18 +373,33 @@ fn collect_validator_entries_inner(
     path: &PathKey,
     out: &mut Vec<(PathKey, String)>,
 ) {
-    for (field, kind) in errors.errors() {
+    // `validator` keeps fields, list items and parameters in hash maps: walk them in a fixed
+    // order, so that the same error always gives the same report.
+    let mut fields: Vec<_> = errors.errors().iter().collect();
+    fields.sort_by(|a, b| a.0.cmp(b.0));
+    for (field, kind) in fields {
         let field_path = path.clone().join(field.as_ref());
         match kind {
             ValidationErrorsKind::Field(entries) => {
                 for entry in entries {
-                    out.push((field_path.clone(), entry.to_string()));
+                    // (the text of `entry.to_string()`, with the parameters in key order)
+                    let text = match entry.message.as_ref() {
+                        Some(msg) => msg.to_string(),
+                        None => {
+                            let params: std::collections::BTreeMap<_, _> =
+                                entry.params.iter().collect();
+                            format!("Validation error: {} [{:?}]", entry.code, params)
+                        }
+                    };
+                    out.push((field_path.clone(), text));
                 }
             }
             ValidationErrorsKind::Struct(inner) => {
                 collect_validator_entries_inner(inner, &field_path, out);
             }
             ValidationErrorsKind::List(list) => {
+                let mut list: Vec<_> = list.iter().collect();
+                list.sort_by_key(|(idx, _)| **idx);
                 for (idx, inner) in list {
                     let index_path = field_path.clone().join(*idx);
                     collect_validator_entries_inner(inner, &index_path, out);
